@@ -734,7 +734,8 @@ func E6ScannerSites(c *core.Ctx, r *core.Report) {
 		})
 	}
 	want := "int(W*resolution.DPMM() + 0.5) x int(H*resolution.DPMM() + 0.5)"
-	if len(shapes) == 2 && shapes[0] == shapes[1] && shapes[0] == want {
+	nosp := func(s string) string { return strings.ReplaceAll(s, " ", "") }
+	if len(shapes) == 2 && shapes[0] == shapes[1] && nosp(shapes[0]) == nosp(want) {
 		r.OK("E6.image-size", "renderers/rasterizer|Draw~New", c.Pos(rfd.Pos()), shapes[0])
 	} else {
 		r.Fail("E6.image-size", "renderers/rasterizer|Draw~New", c.Pos(rfd.Pos()), fmt.Sprintf("image size expressions differ or are not width x height x resolution: %v", shapes))
